@@ -165,6 +165,58 @@ def run_equal(ctx, tag):
     R.total("assert_trees_are_equal.no_other_exception", e, (AssertionError,))
 
 
+def run_equal_mixed_dtypes(ctx):
+    """leaf pairs of DIFFERENT dtypes (finite list of concrete cases: the proxies of Engine P carry no numpy dtype, so dtype-dependent behaviour
+    is checked natively): equal exactly when shapes agree and the elements are numerically equal; symmetric; assertions consistent"""
+    from fractions import Fraction
+
+    from jumanji.testing import pytrees as PT
+    from jxv import core
+    title = "is_equal_pytree[mixed dtypes]"
+    ctx.problems.append({"title": title, "engine": "native (finite list)", "targets": [core.target_meta(PT.is_equal_pytree)]})
+    A = np.asarray
+    cases = [
+        ("int_vs_float_unequal", {"a": A([1, 2])}, {"a": A([1.5, 2.25])}),
+        ("int_vs_float_equal", {"a": A([1, 2])}, {"a": A([1.0, 2.0])}),
+        ("float_vs_int_unequal", {"a": A([1.5, 2.0])}, {"a": A([1, 2])}),
+        ("f32_vs_f64_unequal", [A([0.1], np.float32)], [A([0.1], np.float64)]),
+        ("f32_vs_f64_equal", [A([0.5], np.float32)], [A([0.5], np.float64)]),
+        ("i32_vs_i64_unequal", (A([7], np.int32),), (A([2**32 + 7], np.int64),)),
+        ("i8_vs_i32_unequal", (A([1], np.int8),), (A([257], np.int32),)),
+        ("bool_vs_int_unequal", {"m": A([True, False])}, {"m": A([2, 0])}),
+        ("bool_vs_int_equal", {"m": A([True, False])}, {"m": A([1, 0])}),
+        ("uint8_vs_int32_unequal", [A([255], np.uint8)], [A([-1], np.int32)]),
+        ("jax_int_vs_float_unequal", {"a": jnp.asarray([1, 2])}, {"a": jnp.asarray([1.5, 2.0])}),
+        ("nested_mixed", {"a": A([1, 2]), "b": (A(3),)}, {"a": A([1.5, 2.25]), "b": (A(3.0),)}),
+    ]
+
+    def exact(t1, t2):
+        l1, l2 = jax.tree_util.tree_leaves(t1), jax.tree_util.tree_leaves(t2)
+        for x, y in zip(l1, l2):
+            x, y = np.asarray(x), np.asarray(y)
+            if x.shape != y.shape:
+                return False
+            for u, v in zip(x.reshape(-1).tolist(), y.reshape(-1).tolist()):
+                if Fraction(u) != Fraction(v):
+                    return False
+        return True
+
+    def raises(f, *a):
+        try:
+            f(*a)
+            return False
+        except AssertionError:
+            return True
+    for name, t1, t2 in cases:
+        want = exact(t1, t2)
+        r12, r21 = PT.is_equal_pytree(t1, t2), PT.is_equal_pytree(t2, t1)
+        wit = {"tree1": repr(t1), "tree2": repr(t2), "is_equal(t1,t2)": r12, "is_equal(t2,t1)": r21, "exact": want}
+        ctx.structural(f"{title}/C19.{name}.true_iff_shapes_and_elements_equal", r12 == want and r21 == want, "native execution (finite special cases)", witness=wit)
+        ctx.structural(f"{title}/C19.{name}.symmetric", r12 == r21, "native execution (finite special cases)", witness=wit)
+        ctx.structural(f"{title}/C19.{name}.different_assertion_fails_iff_equal", raises(PT.assert_trees_are_different, t1, t2) == want, "native execution (finite special cases)",
+                       witness=wit)
+
+
 def tasks(tier):
     batches = (1, 2, 3) if tier == "quick" else (1, 2, 3, 4, 5, 8)
     out = {}
@@ -175,6 +227,7 @@ def tasks(tier):
         out[f"state:{name}@{cfg}"] = (run_tree, {"which": f"{name}@{cfg}", "kind": "state", "batches": (2,) if tier == "quick" else (1, 2, 3)})
     for tag in ("dict_list", "namedtuple_tuple", "shape_mismatch", "single"):
         out[f"equal:{tag}"] = (run_equal, {"tag": tag})
+    out["equal:mixed_dtypes"] = (run_equal_mixed_dtypes, {})
     return out
 
 
